@@ -164,6 +164,8 @@ def run_cases(lines, scratch, runner_bin=RUNNER_BIN, tag='s'):
                 verdicts.append(l)
         if not got_summary:
             verdicts.append('BROKEN 0 shard %s produced no summary: %s' % (o, open(o + '.err', errors='replace').read()[-500:]))
+    if summ['total'] != n:
+        verdicts.append('BROKEN 0 %d cases were generated but %d were executed and judged (a runner crash, an empty answer or a dropped line)' % (n, summ['total']))
     return outs, verdicts, summ
 
 
@@ -189,6 +191,31 @@ def run_cases_panic_only(lines, scratch, runner_bin, tag):
         if rc != 0 or nout != nin:
             verdicts.append('BROKEN 0 shard %s: runner exit status %s, %d of %d cases answered (abort / crash?): %s' % (o, rc, nout, nin, open(o + '.err', errors='replace').read()[-400:]))
     return outs, verdicts, summ
+
+
+def cross_entry_check(outs):
+    """C14, second sentence, as a relation between RUNS (the judge looks at one call at a time): the same call executed under
+    different entry words must return the same values, and its exit word must be the entry word OR the exit word it leaves
+    from a clear word. Groups the executed lines by (op, mode, arguments); needs a member with entry word 0 as the reference."""
+    groups = collections.defaultdict(list)
+    for o in outs:
+        for l in open(o, errors='replace'):
+            lhs, _, rhs = l.rstrip('\n').partition(' => ')
+            t = lhs.split(); r = rhs.split()
+            if len(t) < 3 or not r or r[0] == 'PANIC': continue
+            try: fin = int(t[2], 16); fout = int(r[-1], 16)
+            except ValueError: continue
+            groups[(t[0], t[1], tuple(t[3:]))].append((fin, tuple(r[:-1]), fout, l.rstrip('\n')))
+    bad = []
+    for key, g in groups.items():
+        ref = [x for x in g if x[0] == 0]
+        if not ref or len(g) < 2: continue
+        _, outs0, fl0, _ = ref[0]
+        for fin, o_, fout, line in g:
+            if o_ != outs0 or fout != (fin | fl0):
+                bad.append('REJECT 0 %s || expected: the values %s and exit word %x (entry word OR what the call raises from a clear word, %x): outcome depends on the entry status word' % (line, ' '.join(outs0), fin | fl0, fl0))
+                break
+    return bad
 
 
 def parse_verdict(v):
@@ -367,6 +394,24 @@ def run_check(pid, tier, seed):
     obligations.append(('props/%s.v: %d theorems + Print Assumptions allow-list + forbidden-vernacular scan' % (pid, nthm), not problems, '; '.join(problems)))
     n_obl_thm = max(nthm, 1)
 
+    # 2a. thorough tier: independent re-check of the compiled proofs this property's theorems rest on (coqchk), with its own axiom report
+    if tier == 'thorough' and coq_ok:
+        src = os.path.join(COQ, 'props', pid + '.v')
+        mods = []
+        if os.path.exists(src):
+            for m_ in re.finditer(r'From DV Require Import ([^.]*)\.', open(src).read()):
+                mods += ['DV.' + x for x in m_.group(1).split()]
+        if mods:
+            with Lock('coq.lock'):
+                rc, out = sh('timeout 3000 coqchk -silent -o -Q theories DV %s 2>&1' % ' '.join(sorted(set(mods))), cwd=COQ)
+            axs = re.findall(r'^\s+((?:Coq|Flocq|DV)\.[\w\.]+)\s*$', out.split('* Axioms:')[1].split('* Constants')[0], flags=re.M) if '* Axioms:' in out else []
+            bad = [a for a in axs if a.replace('Coq.Logic.', '').replace('Coq.Reals.', '') not in ALLOWED_AXIOMS]
+            clean = all(('%s: <none>' % k) in out for k in ('relying on type-in-type', 'relying on unsafe (co)fixpoints', 'whose positivity is assumed'))
+            okc = rc == 0 and not bad and clean
+            obligations.append(('coqchk: independent re-check of %d compiled modules (and everything they depend on), axioms within the allow-list, no assumed positivity / unsafe fixpoints / type-in-type' % len(set(mods)), okc,
+                                '' if okc else ('exit %s; axioms outside the allow-list: %s; %s' % (rc, bad, out[-600:]))))
+            checker_cmds.append('coqchk -silent -o -Q theories DV ' + ' '.join(sorted(set(mods))))
+
     # 2b. API registry (C15 and operator clauses): the harness dispatch covers exactly the public entry points of the current source
     if spec.get('api_registry') and harness_ok:
         import apiscan, apimap
@@ -380,6 +425,21 @@ def run_check(pid, tier, seed):
                             'entry points without a harness operation: %s; mapped but no longer in the source: %s; mapped to an operation the runner lacks: %s; unclassified items: %s' % (missing, stale, nodisp, unknown) if not ok_ else ''))
         checker_cmds.append('lib/apiscan.py (scan of /repo/src/d128.rs, serde.rs) vs lib/apimap.py vs `verif-harness api`')
 
+    # 2c. layer I: the routines named for this property are re-translated from /repo's current source (layerI/rs2v.py) and the theorems
+    #     "translated code = reference model, for all inputs" (layerI/Impl/ImplProofs.v) are re-checked against the regenerated Gallina
+    if coq_ok and spec.get('layerI'):
+        sys.path.insert(0, os.path.join(ROOT, 'layerI'))
+        import layerI as LI
+        groups, wanted = spec['layerI']
+        with Lock('layerI.lock'):
+            res = LI.check_layerI(os.path.join(scratch, 'layerI'), src=os.path.join(REPO, 'src'), groups=groups)
+        for name, ok_, det_ in res:
+            if name in wanted:
+                obligations.append(('layer I: %s translated from the current source equals the model for all inputs (theorem I_%s)' % (name, name), ok_, '' if ok_ else det_))
+        missing_ = [w for w in wanted if w not in [r[0] for r in res]]
+        if missing_: obligations.append(('layer I: routines %s' % missing_, False, 'not produced by layerI.check_layerI'))
+        checker_cmds.append('layerI/rs2v.py --src /repo/src (Rust -> Gallina) ; coqc ImplLib ImplGen ImplCommon ImplTables ImplMul + one file per routine (layerI/layerI.py)')
+
     # 3. table obligations (regenerated from the compiled crate)
     table_results = []
     if harness_ok and coq_ok and spec.get('tables'):
@@ -392,7 +452,7 @@ def run_check(pid, tier, seed):
     # 4. correspondence
     evaluations = 0; cells = set(); nontrivial_cells = set(); samples = []; dist = collections.Counter()
     rejects = []; summ = collections.Counter()
-    streams_info = []
+    streams_info = []; xsample = []
     if harness_ok and drv_ok:
         rng_master = random.Random(seed)
         for (sname, genf, nq, nt) in spec['streams']:
@@ -422,12 +482,23 @@ def run_check(pid, tier, seed):
                     if nt_: nontrivial_cells.add(c)
                     dist['op:' + c[0]] += 1; dist['mode:' + c[1]] += 1; dist['raised:%02x' % c[3]] += 1; dist['result:' + c[4]] += 1
                     if taken < 2: samples.append(l.strip()); taken += 1
+                    if j % max(1, (len(lines) // 16) // 12) == 0 and len(xsample) < 400: xsample.append(l.rstrip('\n'))
+            if spec.get('cross_entry'):
+                verdicts = verdicts + cross_entry_check(outs)
             for v in verdicts:
                 d = parse_verdict(v) if not v.startswith('BROKEN') else dict(kind='BROKEN', case='', got=v, expected='')
                 d['stream'] = sname
                 rejects.append(d)
             if s['unknown']:
                 rejects.append(dict(kind='BROKEN', case='', got='%d cases with an operation the judge does not know' % s['unknown'], expected='', stream=sname))
+    # 4b. extraction cross-check: a sample of the executed cases is judged again inside Coq (vm_compute) and compared with the extracted judge
+    if harness_ok and drv_ok and coq_ok and not spec.get('panic_only') and xsample:
+        import xcheck
+        random.Random(seed).shuffle(xsample)
+        okx, detx, nx = xcheck.crosscheck(xsample, DRIVER_BIN, COQ, scratch, 120)
+        obligations.append(('extraction = evaluation: the extracted judge and vm_compute inside Coq give the same verdict on %d sampled cases' % nx, okx, detx if not okx else ''))
+        checker_cmds.append('coqc XCheck.v (Eval vm_compute of judge (expected ...) on sampled cases) vs ocaml/driver -v')
+
     # 5. triage
     known = load_known()
     met = collections.Counter()
